@@ -42,6 +42,11 @@ ASSUMPTIONS = [
     "rectangle order are not affected by rounding) and the four numbers of each rectangle are compared up to 2^-40; the "
     "instance strop_decomposition returns is the first in Python set order, so its output must equal the rectangle list of "
     "ONE of the model's instances; netlist loading + create_stog: direct oracle only",
+    "'recognised ... with the trunk first' is judged on the rectangles the loaded module holds after create_stog: the first "
+    "is labelled TRUNK, every other one NORTH / SOUTH / EAST / WEST and it abuts the first on that side within the first's "
+    "extent (1e-9 of the largest coordinate allowed); create_stog moves the largest rectangle that can be a trunk to the front, "
+    "so for a decomposition whose branch is larger than its trunk this is what tells that the trunk stayed first (L-shape "
+    "stream; this implementation decomposes L-shapes with an east, north or south branch, never a west one)",
     "the netlist reader refuses negative numbers: a decomposition reaching below 0 is moved by a whole number of units "
     "before it is loaded (exact for dyadic / integer coordinates; decimal polygons with negative coordinates are not loaded)",
     "decimal polygons keep sides >= 0.3 and coordinates below 128, so binary64 rounding (a few 1e-14) stays below the "
@@ -769,6 +774,43 @@ def gen_gpoly_case(rng, big=False):
             "closed": rng.random() < 0.15, "repr": rng.choice(forms), "twice": rng.random() < 0.2}
 
 
+LSHAPES = [["10", "11"], ["01", "11"], ["11", "10"], ["11", "01"]]       # the notch in the NE / NW / SE / SW corner
+# (width of the column beside the notch, width of the notch column, height of the notch row, height of the full row):
+# whichever arm the decomposition takes as its trunk, the other arm - flush with one end of the trunk - is the LARGER
+# rectangle in half of these (and a valid east/west or north/south branch of it only one way round)
+LSIZES = [(1, 6, 1, 2), (4, 9, 2, 5), (1, 3, 5, 2), (2, 3, 8, 2), (3, 3, 3, 3), (2, 1, 2, 6), (1, 1, 1, 1), (4, 9, 5, 2),
+          (9, 4, 2, 5), (2, 11, 1, 3), (1, 12, 7, 1), (5, 2, 1, 9)]
+
+
+def gen_lshape_case(rng, idx):
+    """L-shaped polygons (a box with a rectangular notch in one of the four corners): two rectangles, the branch flush
+    with the bottom / top / left / right end of the trunk; the sizes are chosen so that the branch is often the LARGER
+    of the two (create_stog prefers the largest rectangle that can be a trunk, and only the decomposition's trunk
+    can).  Every corner, both orientations, every start vertex; sizes from the list (scaled) or random."""
+    rows = LSHAPES[idx % 4]
+    k = idx // 4
+    rev = bool(k % 2)
+    k //= 2
+    if k < len(LSIZES):
+        a, c, b, d = (F(v) for v in LSIZES[k])
+    else:
+        u = rng.choice([1, 1, 2, 4])
+        a, c, b, d = (F(rng.choice([1, 2, 3, 4, 5, 8, 13, 21]), u) for _ in range(4))
+    if rows[0][0] == "0" or rows[1][0] == "0":      # the notch in the west column
+        ws = [c, a]
+    else:
+        ws = [a, c]
+    hs = [b, d] if "0" in rows[0] else [d, b]
+    ox, oy = F(rng.randrange(0, 40)), F(rng.randrange(0, 40))
+    xs = [ox, ox + ws[0], ox + ws[0] + ws[1]]
+    ys = [oy + hs[0] + hs[1], oy + hs[1], oy]            # row 0 is the top row
+    allint = all(v.denominator == 1 for v in xs + ys)
+    forms = list(FORMS_ANY) + FORMS_F32 + (FORMS_INT if allint else [])
+    return {"kind": "gpoly", "gen": "lshape", "mode": "int" if allint else "dyadic", "place": "positive", "rows": list(rows),
+            "xs": xs, "ys": ys, "rev": rev, "anchor": None, "where": "any", "rot": rng.randrange(0, 6), "closed": False,
+            "repr": rng.choice(forms), "twice": False}
+
+
 def gen_probe_cases(rng, npoly):
     """Systematic part of the polygon stream: for npoly small integer polygons, EVERY corner in turn is put
     exactly on a padding-like point ((-1,-1), (0,0), (-1,0), (0,-1)) and listed last or first, the vertices
@@ -1147,6 +1189,41 @@ def polygon_oracle(case, obs):
         return "create_stog does not recognise the decomposition as a single-trunk orthogon"
     if obs["locs"][0] != "TRUNK" or any(x not in ("NORTH", "SOUTH", "EAST", "WEST") for x in obs["locs"][1:]):
         return f"create_stog locations {obs['locs']}: trunk not first or a rectangle without a side"
+    if case.get("gen") == "lshape" and len(obs["rects"]) == 2:
+        t, b = obs["rects"]
+        key = obs["locs"][1] + (" branch larger than the trunk" if b[2] * b[3] > t[2] * t[3] else " branch not larger")
+        LSHAPE_COV[key] = LSHAPE_COV.get(key, 0) + 1
+    return trunk_first(obs, scale)
+
+
+LSHAPE_COV = {}
+
+
+def trunk_first(obs, scale):
+    """'recognised ... with the trunk first', on the rectangles the loaded module holds after create_stog: the first one
+    is a trunk - every other rectangle abuts it on the side it is labelled with, within the trunk's extent on that side
+    (1e-9 of the largest coordinate allowed).  Only the decomposition's own trunk can be that rectangle: another
+    rectangle of the decomposition in front is reported together with the rectangle that does not fit it."""
+    if "after" not in obs or len(obs["after"]) != len(obs["locs"]):
+        return None
+    tol = F(1, 10 ** 9) * max(1, scale)
+    box = lambda r: (fexact(r[0]) - fexact(r[2]) / 2, fexact(r[0]) + fexact(r[2]) / 2,
+                     fexact(r[1]) - fexact(r[3]) / 2, fexact(r[1]) + fexact(r[3]) / 2)
+    tx0, tx1, ty0, ty1 = box(obs["after"][0])
+    for r, loc in list(zip(obs["after"], obs["locs"]))[1:]:
+        x0, x1, y0, y1 = box(r)
+        abuts = {"NORTH": abs(y0 - ty1), "SOUTH": abs(y1 - ty0), "EAST": abs(x0 - tx1), "WEST": abs(x1 - tx0)}[loc] <= tol
+        if loc in ("NORTH", "SOUTH"):
+            within = x0 >= tx0 - tol and x1 <= tx1 + tol
+        else:
+            within = y0 >= ty0 - tol and y1 <= ty1 + tol
+        if not (abuts and within):
+            dx, dy = obs.get("moved", [0, 0])
+            moved = [[r0[0] + dx, r0[1] + dy, r0[2], r0[3]] for r0 in obs["rects"]]
+            swapped = ("" if obs["after"][0] == moved[0] else
+                       f"; the decomposition's trunk {obs['rects'][0]} is no longer the first rectangle")
+            return (f"loaded as a module, the first rectangle {obs['after'][0]} is not a trunk: rectangle {r} labelled {loc} "
+                    f"does not abut that side of it within its extent (decomposition {obs['rects']}, moved by {dx}, {dy}){swapped}")
     return None
 
 
@@ -1247,6 +1324,8 @@ def dist_key(case):
     if case["kind"] == "inside":
         return "point-inside/" + case.get("sub", "?")
     if case["kind"] == "gpoly":
+        if case.get("gen") == "lshape":
+            return "polygon/lshape/" + "+".join(case["rows"]) + ("/cw" if case.get("rev") else "/ccw")
         return "polygon/" + case.get("repr", "?") + "/" + ("decimal" if case.get("mode") == "decimal" else case.get("place", "?"))
     return "polygon/" + ("cw" if case.get("rev") else "ccw") + "/" + case.get("repr", "?")
 
@@ -1293,6 +1372,10 @@ def run(ctx, out, replay=None):
                 "float32 / int64 / int32, mixed), both orientations, every start vertex, open or closed, coordinates "
                 "dyadic / integer / decimal, positive / negative / straddling 0 / a corner exactly at (-1,-1), (0,0), ... "
                 "listed last or first / offsets up to 2^20 and 10^6, some decomposed twice from the same object; "
+                "L-SHAPES (own generator): a box with a notch in each of the four corners, both orientations, any start "
+                "vertex, arm sizes such that the branch - flush with one end of the trunk - is often the larger rectangle "
+                "(coverage.lshapes counts them by side); loaded as a module the first rectangle must be a trunk for all "
+                "the others (abutting on the labelled side within its extent); "
                 "is_point_inside_polygon on such polygons and on slanted / self-intersecting vertex lists (three y "
                 "levels) at cell centres, vertices, edge points and generic points; non-trivial = at least two true "
                 "cells / at least one branch / at least three vertices; distinct by hash")
@@ -1304,9 +1387,11 @@ def run(ctx, out, replay=None):
     if quick:
         cheap = list(exhaustive_cases(12, 12)) + list(sampled_cases(rng, 6000, 12, 16))
         nrand, npoly, ngpoly, nbig, nprobe, ninside, nlarge, ntext, nhuge, nlong = 3000, 300, 500, 40, 8, 200, 400, 400, 16, 12
+        nlshape = 8 * len(LSIZES)
     else:
         cheap = list(exhaustive_cases(16, 16))
         nrand, npoly, ngpoly, nbig, nprobe, ninside, nlarge, ntext, nhuge, nlong = 40000, 3000, 3000, 200, 60, 3000, 3000, 3000, 100, 60
+        nlshape = 8 * len(LSIZES) + 600
     cheap += [gen_matrix_case(rng) for _ in range(nrand)]
     cheap += [gen_text_case(rng) for _ in range(ntext)]
     heavy = [gen_large_case(rng) for _ in range(nlarge)]
@@ -1315,8 +1400,16 @@ def run(ctx, out, replay=None):
     heavy += [gen_gpoly_case(rng) for _ in range(ngpoly)]
     heavy += [gen_gpoly_case(rng, big=True) for _ in range(nbig)]
     heavy += list(gen_probe_cases(rng, nprobe))
+    # its own generator: the cases of the other streams stay what they were
+    import random
+    rng_l = random.Random(f"C15-lshape-{ctx.seed}")
+    lcases = [gen_lshape_case(rng_l, k) for k in range(nlshape)]
     heavy += [gen_inside_case(rng) for _ in range(ninside)]
     rng.shuffle(heavy)
+    heavy = spread(heavy, lcases)
     cases = head + spread(cheap, heavy)
     fr.run_cases(ctx, out, cases, run_impl, to_coq, oracle, failure_key, HEADER,
                  dist_key=dist_key, nontrivial=nontrivial, shard=1000, shrink=shrink)
+    out.extra["lshapes"] = {"cases": len(lcases), "two_rectangle_decompositions_by_branch_side": dict(sorted(LSHAPE_COV.items())),
+                            "note": "evidence that the L-shape stream reaches decompositions whose branch (listed second, flush "
+                                    "with one end of the trunk) has the larger area, on each side; not an oracle"}
